@@ -57,7 +57,9 @@ ATTR_POOL = [
     ("a", "1"), ("b", "2"), ("A", "3"),
 ]
 TEXTS = ["x", "y z", " ", "\n", "\nq", "\n\n", " a ", "\t", "a\0b", "\0", "  \n", "text", "é", "&amp;", "<", "a b c d", "\x0c",
-         " \n x \n ", "1"]
+         " \n x \n ", "1",
+         # white space by Unicode's reckoning but not by HTML's (and the other way round: FF is HTML white space)
+         "\x0b", " \x0b", "\xa0", "\u3000", "\u2028", "\x0b\n", "\x85", "\x1f", "\xa0 \xa0"]
 DOCTYPES = ["<!DOCTYPE html>", "<!doctype html>", "<!DOCTYPE>", "<!DOCTYPE foo>", "<!DOCTYPE html SYSTEM \"about:legacy-compat\">",
             "<!DOCTYPE html PUBLIC \"-//W3C//DTD HTML 4.01//EN\" \"http://www.w3.org/TR/html4/strict.dtd\">",
             "<!DOCTYPE html PUBLIC \"-//W3C//DTD HTML 4.01 Transitional//EN\">",
